@@ -109,3 +109,8 @@ Proof.
 Qed.
 Lemma list_eqb_refl {A} (eqb : A -> A -> bool) (H : forall x, eqb x x = true) a : list_eqb eqb a a = true.
 Proof. induction a; simpl; auto. rewrite H; auto. Qed.
+
+Lemma forallb_map' {A B} (f : B -> bool) (g : A -> B) l : forallb f (map g l) = forallb (fun x => f (g x)) l.
+Proof. induction l; simpl; auto. rewrite IHl. reflexivity. Qed.
+Lemma existsb_map' {A B} (f : B -> bool) (g : A -> B) l : existsb f (map g l) = existsb (fun x => f (g x)) l.
+Proof. induction l; simpl; auto. rewrite IHl. reflexivity. Qed.
